@@ -391,7 +391,9 @@ func runItems(u *vk.Unit, tag string, items []Case, label func(Case) string) {
 		cmd := exec.Command("go", args...)
 		cmd.Dir = b.Dir
 		cmd.Env = append(os.Environ(), "GOFLAGS=-mod=mod", "GOPROXY=off", "GOSUMDB=off", "GOTOOLCHAIN=local")
-		outb, err := cmd.CombinedOutput()
+		var outb []byte
+		var err error
+		regen.WithCacheLock(func() { outb, err = cmd.CombinedOutput() })
 		u.LabelN("test-binaries-built", len(testPkgs))
 		if err != nil {
 			// attribute per package
